@@ -21,7 +21,7 @@ class Destructors:
     segment_end = gfapy.SegmentEnd(segment_end)
     other_end = gfapy.SegmentEnd(other_end)
     s = self.try_get_segment(segment_end.segment)
-    for d in s.dovetails_of_end(segment_end.end_type):
+    for d in list(s.dovetails_of_end(segment_end.end_type)):
       if not conserve_components or not self.is_cut_link(d):
         d.disconnect()
 
